@@ -97,6 +97,16 @@ type caseT struct {
 	DlAll     bool          `json:"dl_all"`
 
 	CheckLatest bool `json:"check_latest,omitempty"`
+
+	// Fault: one transient failure of a metadata store call of the squash (the Nth Has / Get / KeysPrefix under the
+	// repository's bundles). The squash may then fail - it must not remove anything it is asked to keep, and run
+	// again without fault it must finish the job
+	Fault *faultT `json:"fault,omitempty"`
+}
+
+type faultT struct {
+	Op  string `json:"op"`
+	Nth int    `json:"nth"`
 }
 
 func (c caseT) effN() int {
@@ -289,6 +299,9 @@ func drawCase(t *rapid.T) caseT {
 	c.Bystander = rapid.IntRange(0, 3).Draw(t, "bystander") == 0
 	c.DlSeed = rapid.Uint64().Draw(t, "dlseed")
 	c.DlAll = hx.Thorough() && rapid.IntRange(0, 3).Draw(t, "dlall") == 0
+	if rapid.IntRange(0, 3).Draw(t, "fault") == 0 {
+		c.Fault = &faultT{Op: rapid.SampledFrom([]string{memstore.OpHas, memstore.OpHas, memstore.OpGet, memstore.OpKeysPrefix}).Draw(t, "fault_op"), Nth: rapid.IntRange(1, 12).Draw(t, "fault_nth")}
+	}
 	return c
 }
 
@@ -595,8 +608,54 @@ func runCase(c caseT) (info infoT, err error) {
 	if c.Batch > 0 {
 		opts = append(opts, core.BatchSize(c.Batch))
 	}
-	if err := core.RepoSquash(v.Stores, repo, opts...); err != nil {
-		return info, fmt.Errorf("RepoSquash: %v", err)
+	var mf *memstore.Fault
+	rerun := false
+	if c.Fault != nil {
+		mf = &memstore.Fault{Op: c.Fault.Op, KeySub: "bundles/" + repo + "/", Nth: c.Fault.Nth, Times: 1}
+		v.Meta.AddFault(mf)
+	}
+	serr := core.RepoSquash(v.Stores, repo, opts...)
+	v.Meta.ClearFaults()
+	if mf != nil && mf.Hits > 0 {
+		stats.Count("squash_with_transient_metadata_failure", 1)
+		if serr != nil {
+			stats.Count("squash_failed_on_transient_failure", 1)
+		}
+		// whatever the squash answered, nothing it was asked to keep may be gone
+		now, lerr := core.ListBundles(repo, v.Stores)
+		if lerr != nil {
+			return info, fmt.Errorf("ListBundles after a squash disturbed by a transient failure: %v", lerr)
+		}
+		have := map[string]bool{}
+		for _, b := range now {
+			have[b.ID] = true
+		}
+		for _, id := range kept {
+			if !have[id] {
+				return info, fmt.Errorf("a squash disturbed by one transient %s failure (squash error: %v) removed bundle %s which it had to keep", c.Fault.Op, serr, id)
+			}
+		}
+		ls, lerr := core.ListLabels(repo, v.Stores)
+		if lerr != nil {
+			return info, fmt.Errorf("ListLabels after a squash disturbed by a transient failure: %v", lerr)
+		}
+		haveL := map[string]string{}
+		for _, l := range ls {
+			haveL[l.Name] = l.BundleID
+		}
+		for name, id := range wantLabels {
+			if haveL[name] != id {
+				return info, fmt.Errorf("a squash disturbed by one transient %s failure (squash error: %v) removed label %s of kept bundle %s", c.Fault.Op, serr, name, id)
+			}
+		}
+		if serr != nil {
+			// the operator runs it again
+			rerun = true
+			serr = core.RepoSquash(v.Stores, repo, opts...)
+		}
+	}
+	if serr != nil {
+		return info, fmt.Errorf("RepoSquash: %v", serr)
 	}
 
 	describe := func() string {
@@ -659,6 +718,12 @@ func runCase(c caseT) (info infoT, err error) {
 	}
 	for name, id := range got {
 		if _, ok := wantLabels[name]; !ok {
+			if rerun && labels[name] == id && !keep[id] {
+				// the squash that failed had already removed the bundle; the rerun finds nothing left to squash and
+				// returns before its label clean-up. The property speaks of a squash that runs to its end: counted only
+				stats.Count("dangling_label_after_failed_squash_and_rerun", 1)
+				continue
+			}
 			return info, fmt.Errorf("label %q -> %s survives although its bundle was to be removed; %s", name, id, describe())
 		}
 	}
